@@ -462,7 +462,7 @@ func buildRaw(root string, v Vars, o buildOpts) *buildResult {
 		}
 		res.Executed = map[string]bool{}
 		for _, s := range res.Steps {
-			for _, t := range []string{tGen, tMid, tTop, tLeaf, tOther, tColon, tOtherAll} {
+			for _, t := range []string{tGen, tMid, tTop, tLeaf, tOther, tColon, tOtherAll, tDocs} {
 				if bodyName(t) == s {
 					res.Executed[t] = true
 				}
@@ -529,7 +529,7 @@ func dryThenRealSameProject(root string, v Vars, target string, reload bool) *bu
 	res.Steps = be.steps
 	res.After = readTree(root)
 	for _, s := range be.steps {
-		for _, t := range []string{tGen, tMid, tTop, tLeaf, tOther, tColon, tOtherAll} {
+		for _, t := range []string{tGen, tMid, tTop, tLeaf, tOther, tColon, tOtherAll, tDocs} {
 			if bodyName(t) == s {
 				res.Executed[t] = true
 			}
